@@ -185,6 +185,10 @@ package htlcswitch
 //@        circuit == prevheap(cm.opened[outKey]) && circuit.Outgoing == nil && len(trimmedOutKeys) == prev(len(trimmedOutKeys)) + 1 &&
 //@        outKey.HtlcID == prev(i) && outKey.ChanID.BlockHeight == chanID.BlockHeight && outKey.ChanID.TxIndex == chanID.TxIndex &&
 //@        outKey.ChanID.TxPosition == chanID.TxPosition
+//@   // success means the scan ran up to the first HTLC id without an open keystone: that keystone is not in the map when the function
+//@   // leaves the loop, and what was removed from memory is then removed from disk
+//@   site return * nth 0 as trimmed-to-first-gap: assert len(trimmedOutKeys) == 0 && !has(cm.opened, outKey)
+//@   site call Update as trimmed-to-first-gap-then-disk: assert len(trimmedOutKeys) > 0 && !has(cm.opened, outKey)
 //@
 //@ func (cm *circuitMap) trimAllOpenCircuits
 //@   props C07
